@@ -79,10 +79,12 @@ def random_action(cl, rng, w, state):
         kinds = state.get('kinds', [('op', 1.0)])
         kk = rng.choices([x[0] for x in kinds], [x[1] for x in kinds])[0]
         # the kind is visible in the id, so that sets of ids (Raisers, SpecialCids) mean the same in every trace
-        cid = {'op': 'c', 'boom': 'x', 'add': 'm', 'rem': 'm', 'ver': 'v', 'vop': 'w'}[kk] + str(state['ncmd'])
+        cid = {'op': 'c', 'boom': 'x', 'add': 'm', 'rem': 'm', 'ver': 'v', 'vop': 'w', 'sad': 's', 'srm': 's'}[kk] + str(state['ncmd'])
         spec = {'kind': kk}
         if kk in ('add', 'rem'):
             spec['x'] = rng.choice(state['memb_targets'])
+        if kk in ('sad', 'srm'):
+            spec['x'] = rng.choice(['1', '2'])
         if kk == 'ver':
             spec['v'] = rng.choice([0, 1, 2, 2, 5, 11, 11, 12])
         if kk == 'op' and state.get('pads'):
